@@ -55,5 +55,6 @@ func (op ObjectProperties) MarshalJSON() ([]byte, error) {
 		}
 	}
 	b.WriteByte('}')
-	return b.Bytes(), nil
+	// The buffer goes back to the pool: hand out a copy.
+	return append([]byte(nil), b.Bytes()...), nil
 }
